@@ -176,6 +176,8 @@ def judge_fifo(ref, w, what):
         if exp != ("pause", wv):
             return "%s: observed wait %d, reference FIFO says %s" % (what, wv, exp)
     elif w[1] == "ready":
+        if len(w) < 4 or not w[3].isdigit():
+            return "%s: observed '%s' (a path and its flags were expected), reference FIFO says %s" % (what, " ".join(w), exp)
         if exp != ("ready", w[2], int(w[3])):
             return "%s: observed %s flags %s, reference FIFO says %s" % (what, w[2], w[3], exp)
     else:
